@@ -62,6 +62,9 @@ def parseOp (line : String) : Option Op :=
   | ["ins", k, v] => do some (.ins (← k.toNat?) (← v.toNat?))
   | ["get", k] => do some (.get (← k.toNat?))
   | ["has", k] => do some (.has (← k.toNat?))
+  | ["xhas", k] => do some (.has (← k.toNat?))      -- extra call of a metamorphic pair (C15)
+  | ["xiter"] => some .iter
+  | ["xsnap"] => some .snap
   | ["iter"] => some .iter
   | ["inv", k] => do some (.inv (← k.toNat?))
   | ["invall"] => some .invAll
